@@ -100,6 +100,18 @@ def zero_is_a_value(ctx):
     scope.extend(fi for q, fi in sorted(mi.all_functions.items()) if '<locals>' not in q)
   pitfalls.apply(ctx, 'PITFALL', scope, ['falsy-domain-zero'], {
       'falsy-domain-zero': 'what is extracted then depends on whether an instrument number / a pitch happens to be 0: instrument 0 selects every instrument, a melody note of pitch 0 is not ended'})
+  parameters_reach(ctx, scope)
+
+
+def parameters_reach(ctx, scope=None):
+  from sa import pitfalls
+  if scope is None:
+    scope = []
+    for mn in ('melodies_lib', 'drums_lib', 'chords_lib', 'performance_lib', 'pianoroll_lib'):
+      scope.extend(fi for q, fi in sorted(ctx.P.module(mn).all_functions.items()) if '<locals>' not in q)
+  pitfalls.apply(ctx, 'PITFALL', [fi for fi in scope if fi.cls is not None], ['unforwarded-parameter', 'dead-parameter'], {
+      'dead-parameter': 'an argument of the extraction (a limit, an instrument, a start step) that nothing reads cannot shape what is extracted',
+      'unforwarded-parameter': 'what is extracted (which instrument, which program / drum flag, which limits) then follows the helper\'s default, not the arguments of the extraction'})
 
 
 def run(ctx):
@@ -608,6 +620,31 @@ def note_perf_limit(ctx, rule='SHIFT/note-limit'):
            'the duration limit test is %s, not "duration > max_duration_steps"' % norm_text(dr[0].test), construct='NotePerformance: raise iff duration > max_duration_steps')
 
 
+def _inline_nested(fi, expr, depth=3):
+  """expr with calls of fi's nested one-return helpers replaced by the returned expression (arguments and defaults substituted)."""
+  from sa import pathval
+
+  class T(ast.NodeTransformer):
+    def visit_Call(self, node):
+      self.generic_visit(node)
+      g = fi.nested.get(node.func.id) if isinstance(node.func, ast.Name) else None
+      if g is None or depth <= 0:
+        return node
+      body = [b for b in g.node.body if not (isinstance(b, ast.Expr) and isinstance(b.value, ast.Constant))]
+      if len(body) != 1 or not isinstance(body[0], ast.Return) or body[0].value is None or any(isinstance(a, ast.Starred) for a in node.args) or any(k.arg is None for k in node.keywords):
+        return node
+      a = g.node.args
+      pos = a.posonlyargs + a.args
+      env = dict((q.arg, d) for q, d in zip(pos[len(pos) - len(a.defaults):], a.defaults))
+      env.update((q.arg, x) for q, x in zip(pos, node.args))
+      env.update((k.arg, k.value) for k in node.keywords)
+      if any(q.arg not in env for q in pos):
+        return node
+      return pathval.subst(body[0].value, env)
+  import copy
+  return T().visit(copy.deepcopy(expr))
+
+
 def metric_limit(ctx, rule='SHIFT/metric-limit'):
   """MetricPerformance computes max_shift_steps twice (for the extraction and for the base constructor that
   reports it); both must be steps_per_quarter * max_shift_quarters.  Shared with C06."""
@@ -618,15 +655,23 @@ def metric_limit(ctx, rule='SHIFT/metric-limit'):
       if k.arg == 'max_shift_steps':
         vals.append((c, k.value))
   ctx.require(len(vals) >= 2, 'MetricPerformance.__init__: expected the shift limit to be passed to the extraction and to the base constructor')
-  want = nf.rat(E('self._steps_per_quarter * max_shift_quarters'))
+  twins = ('self._steps_per_quarter', 'steps_per_quarter', 'quantized_sequence.quantization_info.steps_per_quarter')
+  wants = [nf.rat(E('%s * max_shift_quarters' % t)) for t in twins]
   for c, v in vals:
+    vx = U.expand_locals(fi.node, _inline_nested(fi, v), at=c)
+    vx = _inline_nested(fi, vx)
+    form = None
     try:
-      ok = nf.rat(v).equals(want)
+      form = nf.rat(vx)
+      ok = any(form.equals(w) for w in wants)
     except nf.NFError:
       ok = False
+    # located whatever the arrangement: a limit whose formula does not mention max_shift_quarters ignores the constructor's argument
+    blind = form is not None and not ok and 'max_shift_quarters' not in form.atoms()
     ctx.ob(rule, fi, c, ok, 'max_shift_steps = steps_per_quarter * max_shift_quarters' if ok else
-           'max_shift_steps is %s here, not steps_per_quarter * max_shift_quarters: extracted shifts and the reported limit disagree' % norm_text(v),
-           construct='MetricPerformance max_shift_steps @ %s' % norm_text(c.func))
+           ('max_shift_steps is %s here, which does not depend on max_shift_quarters: with another value than the default, extracted shifts and the reported limit disagree' % norm_text(vx) if blind else
+            'max_shift_steps is %s here, not steps_per_quarter * max_shift_quarters: extracted shifts and the reported limit disagree' % norm_text(v)),
+           construct='MetricPerformance max_shift_steps @ %s' % norm_text(c.func), definite=blind)
 
 
 def chords(ctx):
